@@ -152,6 +152,26 @@ def c09_events(e1: int, p1: int, g1: int, d: int, v: int, kind: int, code: int, 
                             continue
                     rt.note('reap event of %r carries exit_code %r, wait status %r means %r', pid, rs[0].get('exit_code'), st, want)
                     ok = False
+            # the same for deaths that are EVENTS of the history (self-exit / external kill placed between requests)
+            stopped_meanwhile = any(e in (scen.EV_STOP, scen.EV_RESTART, scen.EV_RELOAD_TERM) for e, _r in sc.reqs)
+            for kp in k.procs.values():
+                if kp.tag != 'a' or kp.death_how not in ('self-exit', 'external') or stopped_meanwhile:
+                    continue
+                def _excused2(s):
+                    if s['target'] == 'alive':
+                        return True
+                    begun = [c for c in sc.op_calls if c <= s['call']]
+                    return bool(begun) and kp.death_call > begun[-1]
+                if [s for s in k.signal_log if s['pid'] == kp.pid and s['sig'] != 0 and _excused2(s)]:
+                    continue
+                want2 = (kp.status // 256) if kp.status % 128 == 0 else -(kp.status % 128)
+                rs = reaps.get(kp.pid, [])
+                if not rs:
+                    rt.note('worker %r died by itself (wait status %r) while the watcher was active: no reap event', kp.pid, kp.status)
+                    ok = False
+                elif rs[0].get('exit_code') != want2:
+                    rt.note('reap event of %r carries exit_code %r, wait status %r means %r', kp.pid, rs[0].get('exit_code'), kp.status, want2)
+                    ok = False
             # start / stop events agree with the reported status
             last = None
             for (t, topic, o) in w.events:
@@ -267,6 +287,10 @@ def plan(tier):
         sh.append({'e1': e, 'K': 1, 'n0': 2, 'beh': 0, 'var': 'send_hup', 'dmax': 6})
     for e in (scen.EV_INCR, scen.EV_DECR, scen.EV_SETNP, scen.EV_RELOAD, scen.EV_CHECK):
         sh.append({'e1': e, 'K': 1, 'n0': 2, 'beh': 0, 'var': 'max_age', 'dmax': 8})
+    for e in (scen.EV_EXIT, scen.EV_XKILL):
+        # the worker is dead (and past max_age) BEFORE the next request looks at the process set
+        sh.append({'e1': e, 'K': 2, 'n0': 2, 'beh': 0, 'var': 'max_age'})
+        sh.append({'e1': e, 'K': 2, 'n0': 2, 'beh': 0})
     return [
         Cond('c09_events', shards=sh, budget=200 if q else 1500, twins=2,
              bounds={'e1,e2': 'S: 13-event menu (C01 menu + stop, start)', 'p1,p2': 'R[-1,2]', 'g1': 'S{now, 1 turn, quiescence}',
